@@ -9,28 +9,52 @@ REGISTRY = {}  # prop -> [(name, script, bound description)]
 
 
 THOROUGH_ONLY = set()
+COVERS = {}   # stand-in name -> task-name prefixes whose FUNCTIONS the stand-in exercises natively (so it can stand in for
+              # such a task when a changed body leaves the deductive engine's reach)
 
 
-def register(prop, name, script, bound, thorough_only=False):
+def register(prop, name, script, bound, thorough_only=False, covers=()):
     REGISTRY.setdefault(prop, []).append((name, script, bound))
+    COVERS[name] = tuple(covers)
     if thorough_only:
         THOROUGH_ONLY.add(name)
 
 
-register("C09", "regions_vs_closed_form_oracle", "c09_c10_oracle.py C09", "scales 1e-4..1e2 x 6 cones x 6 random region pairs (rectangles and ellipsoids), margin > 1e-6*scale")
-register("C10", "rect_covered_vs_LP_oracle", "c09_c10_oracle.py C10", "scales 1e-4..1e2 x 6 cones x 6 random rectangle pairs, HiGHS LP oracle, margin > 1e-5*scale")
+def covering(task_name):
+    """(property, stand-in name) pairs whose stand-in covers the function of this task."""
+    return [(p, n) for p, lst in REGISTRY.items() for (n, _, _) in lst if any(task_name.startswith(c) for c in COVERS.get(n, ()))]
+
+
+register("C09", "regions_vs_closed_form_oracle", "c09_c10_oracle.py C09", "scales 1e-4..1e2 x 6 cones x 6 random region pairs (rectangles and ellipsoids), margin > 1e-6*scale",
+         covers=("C09/Rect.is_dominated[", "C09/Ell.is_dominated["))
+register("C10", "rect_covered_vs_LP_oracle", "c09_c10_oracle.py C10", "scales 1e-4..1e2 x 6 cones x 6 random rectangle pairs, HiGHS LP oracle, margin > 1e-5*scale",
+         covers=("C10/Rect.is_covered[",))
 register("C04", "exact_tail_sums", "c04_tails.py", "K in {1,5,200}, m in {2,3,6}, delta in {0.9,0.1,0.001}, rounds t <= 20000 (step upper bound), exact scipy tails", thorough_only=True)
 register("C08", "two_design_failure_probability", "c08_pac.py", "theta in {45,60,90,120}, noise_var in {0.05,0.5,1,4}, eps in {0.2,1}, delta in {0.1,0.01}; union bound over facets")
 register("C12", "icecream_tangency_and_theta_90", "c12_icecream.py", "K in {3..12,16,32,64} x half-angles {5,20,45,60,85}; theta = 90 (one point)")
-register("C17", "optima_vs_certificates", "c17_optima.py", "11 bundled cones + 6 random cones in 2-4-D: alpha vs NNLS projection, u* KKT, beta = 1/alpha")
-register("C15", "posterior_vs_closed_form", "c15_posterior.py", "d in {1,2,3}, m in {2,3}, train sizes {1,3,12,40}, N in {1,2,7}: independent model vs closed-form conditioning (1e-5); order/batching/forgetting, variance monotone, model-list cross-talk for the other classes")
-register("C20", "noise_sample_moments", "c20_moments.py", "2 random correlated factors, 2e5 draws each, 5-sigma bands")
+register("C17", "optima_vs_certificates", "c17_optima.py", "11 bundled cones + 6 random cones in 2-4-D: alpha vs NNLS projection, u* KKT, beta = 1/alpha",
+         covers=("C17/get_alpha", "C17/VOGP.compute_u_star", "C17/ConeTheta2D.beta"))
+register("C15", "posterior_vs_closed_form", "c15_posterior.py", "d in {1,2,3}, m in {2,3}, train sizes {1,3,12,40}, N in {1,2,7}: independent model vs closed-form conditioning (1e-5); order/batching/forgetting, variance monotone, model-list cross-talk for the other classes",
+         covers=tuple("C15/%s.%s[" % (c, m) for c in ("IndependentExactGPyTorchModel", "CorrelatedExactGPyTorchModel", "GPyTorchModelListExactModel") for m in ("add_sample", "update", "predict")))
+register("C20", "noise_sample_moments", "c20_moments.py", "2 random correlated factors, 2e5 draws each, 5-sigma bands", covers=("C20/get_noisy_evaluations_chol[",))
+register("C11", "check_dominates_vs_LP_oracle", "c11_pessimistic.py", "7 cones x 60 random rectangle pairs (soundness; completeness for 2x2 cones with margin 1e-6); 480 lattice polytope queries in 2-3-D",
+         covers=("C11/is_pt_in_extended_polytope[", "C11/Rect.check_dominates[", "C11/line_seg_pt_intersect_at_dim["))
+register("C13", "pareto_routines_vs_brute_force", "c13_pareto.py", "6 cones x N in {1,2,3,5,8,13} x 12 half-integer lattice samples (ties, duplicates), both routines",
+         covers=("C13/get_pareto_set[", "C13/get_pareto_set_naive["))
+register("C16", "histories_vs_independent_accumulator", "c16_empirical.py", "150 random add/update/clear histories, 2-4 designs, 2-3 objectives, all tracking modes",
+         covers=("C16/add_sample[", "C16/update[", "C16/predict[", "C16/history["))
+register("C19", "gaps_coverage_f1_vs_oracles", "c19_gaps.py", "5 cones x 10 lattice value tables (gaps vs formula), coverage vs SLSQP distance oracle away from the boundary, F1 laws on 36 random instances",
+         covers=("C19/get_smallmij[", "C19/get_delta[", "C19/utils.is_covered[", "C19/get_uncovered_size", "C19/epsilonF1["))
+register("C14", "updates_vs_closed_form", "c14_update.py", "120 random design-space updates (subsets, scale forms, both region kinds) and 200 iterative intersections, m in {2,3}",
+         covers=("C14/FixedPointsDesignSpace.update[", "C14/Rect.update[", "C14/Rect.intersect[", "C14/Ell.update[", "C14/hyperrectangle_check_intersection["))
 
 
-def run_for(prop, seed, tier="thorough"):
+def run_for(prop, seed, tier="thorough", only=None):
     out = []
     for name, script, bound in REGISTRY.get(prop, []):
-        if tier != "thorough" and name in THOROUGH_ONLY:
+        if only is not None and name not in only:
+            continue
+        if only is None and tier != "thorough" and name in THOROUGH_ONLY:
             continue
         env = dict(os.environ)
         env["PYTHONPATH"] = os.environ.get("PYVC_REPO", "/repo")
